@@ -67,6 +67,12 @@ DIRECTED = {
                                   "0 setfmt -1", "conv 0 0 5", "0 meta", "conv 0 1 5", "1 meta", "1 setfmt 5", "1 setfmt 1",
                                   "1 setfmt -1", "1 setfmtbad 1", "1 meta", "conv 1 0 10", "0 meta", "0 setfmt 0",
                                   "0 allocinit 1 1 1 1", "0 meta"],
+    # four objects (identifiers of TwoObjModel.kstep): conversion chain through every slot, in place, copy, free
+    "four_objects": ["3 init 1 2 2 2", "3 setmat 0 4 1,1 2,0 0,3 1,-1", "3 setmat 1 4 2,1 1,0 1,3 0,-1", "3 setfz0v 1 2 60,0 85,1",
+                     "3 setfmt 1", "2 init 10 1 3 1", "2 setcell 0 0 2 9,9", "conv 3 2 4", "2 meta", "2 getmat 1", "conv 2 1 6",
+                     "1 getfz0v 1", "conv 1 1 9", "conv 1 0 10", "0 getmat 1", "3 getmat 1", "2 allocinit 0 0 0 0", "conv 1 2 9",
+                     "2 meta", "conv 0 3 10", "3 dims", "3 resize 0 2 2 2", "3 getmat 0", "conv 2 2 11", "conv 0 1 1", "1 dims",
+                     "0 dims", "1 dims", "2 dims", "3 dims"],
     "mode_switches": ["0 init 4 2 2 2", "0 setz0v 2 10,0 20,0", "0 setfz0 1 1 99,0", "0 getz0 0", "0 getz0v",
                       "0 getfz0v 0", "0 getfz0v 1", "0 setz0 0 5,0", "0 hasfz0", "0 getz0v", "0 setfz0v 0 2 1,0 2,0",
                       "0 setallz0 7,0", "0 getfz0 1 1", "0 setfz0 1 0 3,0", "0 setz0v 2 8,0 9,0", "0 getfz0v 1"],
@@ -350,6 +356,15 @@ def run(ctx):
         maxdim = 3 if i % 4 else 5
         rnd.append(datagen.random_script(ctx.rng, length if i % 3 else length // 4, maxdim=maxdim,
                                          maxfreq=3 if i % 5 else 6))
+    # conversions among all four object slots
+    multi = [datagen.multi_object_script(ctx.rng) for _ in range(150 if quick else 3000)]
+    nbad = 0
+    for i in range(0, len(multi), 150):
+        nbad += run_batch(ctx, runner, multi[i:i + 150], "multi-object conversion walks")
+        if nbad >= 6:
+            break
+    ctx.log("multi-object: %d conversion walks over %d objects: %d differ" % (len(multi), datagen.NOBJ, nbad))
+    ctx.sample({"multi_object_script": multi[0]})
     nbad = 0
     for i in range(0, len(rnd), 20):
         nbad += run_batch(ctx, runner, rnd[i:i + 20], "random histories")
@@ -360,7 +375,7 @@ def run(ctx):
     ctx.sample({"exhaustive_sequence": ex[len(ex) // 2]})
 
     # ---------------------------------------------------------------- coverage accounting
-    stats(ctx, runner, seqs + ex[:2000] + rnd)
+    stats(ctx, runner, seqs + ex[:2000] + rnd + multi)
     ctx.extra.pop("_seen", None)
     new = unknown_violations(ctx)
     ctx.obligation("tie:data_model_vs_implementation", not new, "%d differing sequences" % len(new))
